@@ -65,6 +65,7 @@ def dispatch (op : String) (args : List SExp) : Option OpResult :=
   | "dav.readdir" => opDavReadDir false args
   | "dav.readdir-local" => opDavReadDir true args
   | "dav.op" => opDavOp args
+  | "pf.prin" => opPfPrin args
   | "obj.cals" => opObjCals args
   | "obj.books" => opObjBooks args
   | "obj.calobjs" => opObjObjs "calendar-object" "calendar-data" true args
